@@ -5,10 +5,13 @@ CONSTANTS
   MaxLen = 6
   MaxC = 1
   MaxAtoms = 2
+  GuardSet = {"none", "other"}
+  Narrow = TRUE
   Shapes = {"one", "chain"}
   ForeignGuardMisread = TRUE
   StrictPositiveMin = TRUE
   RaiseOnConflict = TRUE
+  NegativeMaxIsError = FALSE
 INVARIANT TypeOK
 INVARIANT PinnedExact
 INVARIANT PinnedUnsatNotOk
